@@ -181,12 +181,20 @@ def run(ctx, R, tier):
                 raise AnalysisError("msgpack ExtType code is not a constant at %s" % dflt.loc(n))
             written[code] = n.args[1]
     read = {}
+    from ..engine.guards import strip_not
     for n in walk_no_nested(hook.node):
-        if isinstance(n, ast.If) and isinstance(n.test, ast.Compare) and len(n.test.ops) == 1 and isinstance(n.test.ops[0], ast.Eq):
-            okc, code = ctx.const(n.test.comparators[0], hook)
-            if okc and unparse(n.test.left) == hook.params[1]:
-                rets = [x for st in n.body for x in walk_no_nested(st) if isinstance(x, ast.Return)]
-                read[code] = (n, rets[0].value if rets else None)
+        if not isinstance(n, ast.If):
+            continue
+        core, pol = strip_not(n.test)
+        if isinstance(core, ast.Compare) and len(core.ops) == 1 and isinstance(core.ops[0], (ast.Eq, ast.NotEq)):
+            if isinstance(core.ops[0], ast.NotEq):
+                pol = not pol
+            okc, code = ctx.const(core.comparators[0], hook)
+            if okc and unparse(core.left) == hook.params[1]:
+                branch = ast.If(test=core, body=(n.body if pol else n.orelse), orelse=[])
+                ast.copy_location(branch, n)
+                rets = [x for st in branch.body for x in walk_no_nested(st) if isinstance(x, ast.Return)]
+                read[code] = (branch, rets[0].value if rets else None)
     if len(written) < 4:
         raise AnalysisError("MsgpackSerializer.default: fewer ExtType codes than expected (%d)" % len(written))
     for code, enc in sorted(written.items()):
